@@ -44,6 +44,7 @@ class Sess:
             self.neighbor.capability.add_path = 3
         self.neg, _ = _negotiated(self.neighbor)
         self.neg.asn4 = asn4
+        self.neg.aigp = True  # AIGP configured: the value decoder is reached (otherwise the attribute is discarded by design)
         from exabgp.protocol.family import AFI, SAFI
 
         for a, s in IPFAMS:
@@ -139,7 +140,7 @@ def gen_nlri(rng, fam, addpath, withdraw=False):
             labels = [0x800000]
         else:
             k = rng.choice([1, 1, 1, 2, 3])
-            labels = [(rng.choice([16, 100, 1000, 524288, 1048575, rng.randrange(16, 1 << 20)]) << 4) for _ in range(k)]
+            labels = [(rng.choice([16, 100, 1000, 524287, 524289, 1048575, rng.randrange(16, 1 << 19)]) << 4) for _ in range(k)]
             labels[-1] |= 1
     rd = None
     if safi == 128:
@@ -185,7 +186,7 @@ def rfc6793_merge(p2, p4):
     return lead + [list(x) for x in p4]
 
 
-def gen_update(rng, sess, want=None):
+def gen_update(rng, sess, want=None, plain_as4=False):
     """A well-formed UPDATE description.  `want`: None or a code that must be present (c08)."""
     ap = sess.addpath
     d = {'withdrawn': [], 'nlri': [], 'attrs': [], 'mp_reach': None, 'mp_unreach': None}
@@ -228,12 +229,20 @@ def gen_update(rng, sess, want=None):
         p2 = gen_path(rng, big)
         if want == 2 and not p2:
             p2 = [[2, [65000]]]
+        if plain_as4:
+            p2 = [[2, [rng.choice(ASNS2) for _ in range(rng.choice([2, 3, 4]))]]]
         add(2, enc_path(p2, sess.asn4), sem=p2)
         if d['nlri'] or want == 3:
             add(3, [rng.getrandbits(8) for _ in range(4)])
         if maybe(5, 0.5):
             add(5, struct.pack('!L', rng.choice([0, 100, 4294967295, rng.getrandbits(32)])))
-        if (not sess.asn4 and maybe(17, 0.35)) or want == 17:
+        if plain_as4 and want == 17:
+            # C08 bases: one sequence, AS4_PATH repeats its tail (every merge procedure gives AS_PATH back)
+            p4 = [[2, list(p2[0][1][1:])]]
+            add(17, enc_path(p4, True), sem=p4)
+        elif plain_as4:
+            pass
+        elif (not sess.asn4 and maybe(17, 0.35)) or want == 17:
             # a 2-byte peer: AS4_PATH carries the true AS numbers of the trailing part of AS_PATH
             p4 = []
             if rng.random() < 0.75 and p2:
@@ -400,7 +409,10 @@ def attr_obs(a):
         return (0, ('b', [] if a.aid is None else [int(a.aid)]))
     if isinstance(a, ASPath):
         return (int(a.FLAG), ('p', [[int(s.ID), [int(x) for x in s]] for s in a.aspath], bool(a._asn4)))
-    return (int(a.FLAG), ('b', list(bytes(a._packed))))
+    packed = getattr(a, '_packed', None)
+    if packed is None:
+        return (int(a.FLAG), ('b', [])) if False else (int(a.FLAG), ('opaque', type(a).__name__))
+    return (int(a.FLAG), ('b', list(bytes(packed))))
 
 
 def reset_caches():
@@ -429,7 +441,14 @@ def impl_decode(body, sess, json_too=True):
     out = {'kind': 'upd', 'msg': m}
     out['ann'] = [(nlri_fields(r.nlri), nh_bytes(r.nexthop)) for r in d.announces]
     out['wd'] = [nlri_fields(n) for n in d.withdraws]
-    out['attrs'] = {int(k): attr_obs(a) for k, a in d.attributes.items()}
+    out['attrs'] = {}
+    for k, a in d.attributes.items():
+        if int(k) in OPAQUE_CODES:
+            # abstracted value classes: the value is reported as the bytes the parser handed to the decoder
+            sliced = next((v for f, c, ln, v in walk_tlvs(split_body(body)[1]) if c == int(k)), b'')
+            out['attrs'][int(k)] = (int(a.FLAG), ('b', list(sliced)))
+        else:
+            out['attrs'][int(k)] = attr_obs(a)
     if json_too:
         from exabgp.reactor.api.response import Response
         from exabgp.version import json as json_version
@@ -845,7 +864,7 @@ def eor_cases(rng):
         out.append((b'\0\0\0\x07\x90\x0f\0\x03' + struct.pack('!HB', afi, safi), (afi, safi), 'mp-unreach-prefix-form'))
     for afi, safi in IPFAMS:
         # same marker written with the extended-length bit or the partial bit: 12 bytes
-        out.append((b'\0\0\0\x08\x90\x0f\0\x03'[:3] + b'\x07' + b'\x80\x0f\x03' + struct.pack('!HB', afi, safi), (afi, safi), 'mp-unreach-short-length'))
+        out.append((b'\0\0\0\x06\x80\x0f\x03' + struct.pack('!HB', afi, safi), (afi, safi), 'mp-unreach-short-length'))
         out.append((b'\0\0\0\x06\xa0\x0f\x03' + struct.pack('!HB', afi, safi), (afi, safi), 'mp-unreach-partial-bit'))
     return out
 
